@@ -18,13 +18,15 @@ type SimParams struct {
 	Seed    int64
 	Steps   int
 	Heights int
-	Prof    string // sync | async | lossy | byz | byzprop
+	Prof    string // sync | async | lossy | byz | byzprop | late (async + votes held back until the receiver is two rounds further)
 	// Mutate, if non-nil, is applied by a Byzantine proposer to the block it proposes (C02 corruption sweep);
 	// it returns a label for the corruption.
 	Mutate func(b *types.Block, k int) string
 	// OnStep, if non-nil, is called after every scheduler action (C16 injections).
 	OnStep    func(n *Net, step int, rng *rand.Rand)
 	ValChange map[uint64][]int64
+	// Trace records every step of every correct node (Net.Trace); it does not change the simulation
+	Trace bool
 }
 
 var Debug bool
@@ -65,14 +67,23 @@ func minCommitted(n *Net) uint64 {
 // Run executes one simulation under a seeded adversarial scheduler.
 func Run(p SimParams) *SimResult {
 	rng := rand.New(rand.NewSource(p.Seed))
-	n := NewNet(Cfg{N: p.N, Powers: p.Powers, Byz: p.Byz, ValChange: p.ValChange})
+	n := NewNet(Cfg{N: p.N, Powers: p.Powers, Byz: p.Byz, ValChange: p.ValChange, Trace: p.Trace})
 	res := &SimResult{Net: n}
 	honest := n.Honest()
 	lockSeen := map[string]bool{}
 	propSeen := map[string]string{}
 	byzDone := map[string]bool{} // (byz, h, r, kind) already injected
 	mutK := 0
+	// profile "late": votes held back per node, released when the node is at least two rounds past the vote's round
+	// (old-round polkas then complete while the node is locked in a later round)
+	held := map[int][]*Msg{}
+	wasHeld := map[string]bool{}
 
+	if p.Prof == "lockscript" {
+		// a directed prefix (script.go), then the asynchronous scheduler
+		lockScript(n, rng, res)
+		p.Prof = "async"
+	}
 	for step := 0; step < p.Steps; step++ {
 		res.Steps = step + 1
 		if minCommitted(n) >= uint64(p.Heights) {
@@ -149,6 +160,25 @@ func Run(p SimParams) *SimResult {
 				}
 			}
 		}
+		if p.Prof == "late" {
+			for _, hi := range honest {
+				node := n.Nodes[hi]
+				if node.Dead != "" || len(held[hi]) == 0 {
+					continue
+				}
+				rs := node.CS.VerifRoundState()
+				var keep []*Msg
+				for _, m := range held[hi] {
+					vm := m.Payload.(*cs.VoteMessage)
+					if vm.Vote.Height != rs.Height || rs.Round >= vm.Vote.Round+2 || rng.Intn(400) == 0 {
+						node.Inbox = append(node.Inbox, m)
+					} else {
+						keep = append(keep, m)
+					}
+				}
+				held[hi] = keep
+			}
+		}
 		// ---- choose an action
 		type action struct {
 			node int
@@ -177,7 +207,7 @@ func Run(p SimParams) *SimResult {
 			}
 		}
 		var acts []action
-		eager := map[string]int{"sync": 0, "async": 200, "lossy": 120, "byz": 150, "byzprop": 200}[p.Prof]
+		eager := map[string]int{"sync": 0, "async": 200, "lossy": 120, "byz": 150, "byzprop": 200, "late": 60}[p.Prof]
 		switch {
 		case len(msgActs) > 0 && (len(toActs) == 0 || eager == 0 || rng.Intn(eager) != 0):
 			acts = msgActs
@@ -235,6 +265,13 @@ func Run(p SimParams) *SimResult {
 			node.Inbox = append(node.Inbox[:a.msg:a.msg], node.Inbox[a.msg+1:]...)
 			if p.Prof == "lossy" && m.From != a.node && rng.Intn(8) == 0 {
 				continue // dropped
+			}
+			if p.Prof == "late" && m.From != a.node && !wasHeld[fmt.Sprintf("%d/%s", a.node, m.ID)] {
+				if vm, ok := m.Payload.(*cs.VoteMessage); ok && vm.Vote.Type == types.VoteTypePrevote && rng.Intn(3) == 0 {
+					wasHeld[fmt.Sprintf("%d/%s", a.node, m.ID)] = true
+					held[a.node] = append(held[a.node], m)
+					continue
+				}
 			}
 			if (p.Prof == "lossy" || p.Prof == "byz") && rng.Intn(10) == 0 {
 				node.Inbox = append(node.Inbox, m) // duplicated: will be delivered again later
